@@ -69,7 +69,9 @@ BYTES = "\x01bytes:"
 CODED_FILES = [BYTES + b.hex() for b in (
     b"# coding: latin-1\nx = '\xe9'  # \xe9\n", b"# -*- coding: utf-7 -*-\nx = '+AOk-'\n", b"#!/usr/bin/env xonsh\n# vim: set fileencoding=latin-1 :\ny = '\xfc' 1\n",
     b"# coding: latin-1\n$X = '\xe9'\nwith! c:\n    raw \xe9\nf!(\xfc)\n", b"# coding: cp1252\nz = f'{a=}\x80' +\n", b"\xef\xbb\xbf# coding: utf-8\nx = '\xc3\xa9'\n",
-    b"# coding: unicode_escape\nx = 'a\\x41'\n")]
+    b"# coding: unicode_escape\nx = 'a\\x41'\n",
+    # contents that are no text for CPython either: an unknown encoding, a byte order mark contradicted by the declaration, bytes invalid in UTF-8
+    b"# coding: no-such-codec\nx = 1\n", b"#!x\n# -*- coding: ut\xc3\xa9f-8 -*-\nx = 1\n", b"\xef\xbb\xbf# coding: latin-1\nx = 1\n", b"x = '\xe9'\n")]
 
 
 def run_env(envname, texts):
@@ -133,11 +135,14 @@ def run_shard(shard):
             acc.count("spy_saw_no_open")
         else:
             acc.count("spy_opens", len(c["opened"]))
-        if fs != ss:
-            if "\r" in t and c["translated"] is not None and fs == c["translated"]:
-                acc.finding("F12c", t[:60])
-            else:
-                acc.violation("file-and-string-differ", case, {"file": _short(fs), "string": _short(ss)})
+        if c.get("undecodable"):
+            # no text to hand to the string entry point (see c12_child): the file must be refused, identically in every environment
+            acc.count("contents_that_are_no_text")
+            if fs[0] == "tree":
+                acc.violation("undecodable-file-parsed", case, {"file": _short(fs), "reference": c["undecodable"]})
+        elif fs != ss:
+            # (finding F12c - no newline translation on the string side - is repaired: any difference is reported as such)
+            acc.violation("file-and-string-differ", case, {"file": _short(fs), "string": _short(ss), "string_translated_agrees": bool("\r" in t and c["translated"] is not None and fs == c["translated"])})
         acc.seen("sig", (base.h64(t), envname, base.h64(fs)))
     return acc.dump()
 
